@@ -14,6 +14,17 @@ CLAIMS = {
             "Trusted: Lean kernel (+propext, Classical.choice, Quot.sound), the AST patterns of gen/capops.py, the lifting of field operators over "
             "__dict__ (checked differentially on ~14k operations per quick run), Python int = Lean Int.",
             "4/C15"),
+    "C18": ("Lean 4 theorems for every catalogue and every request in N^3 (sufficient, Pareto-minimal, fallback, class lemma) + decide over the complete regenerated catalogue tables; differential sweep over both ends of every threshold class",
+            "Proof: for any catalogue and any (core, ram, disk) request the modelled selection returns a satisfying size whenever one exists, such that no "
+            "other satisfying size is componentwise smaller-or-equal, and the last entry otherwise (which, for the regenerated current catalogue, is "
+            "kernel-checked to dominate every entry); the answer depends only on the request's threshold class, so the harness's sweep over both ends "
+            "of every class validates the one modelled piece (CPython's list.sort head under the partial order) completely on each run. Components: "
+            "lookup finds every model and alias at its own entry (no shadowing, kernel-checked on the regenerated table), and a generated component "
+            "has exactly the entry's interfaces, speeds, kinds, unit counts with ids/labels positional (theorem over all argument lists).",
+            "Trusted: Lean kernel (+propext, Classical.choice, Quot.sound); gen/catalog.py (JSON tables, AST shape of map_capacities_to_instance and constants of "
+            "generate_component); list.sort's head modelled by a running-head fold (validated exhaustively per class each run); distinct instance names taken "
+            "from dict semantics (translator rejects duplicates); uuid4 freshness.",
+            "4/C18"),
 }
 
 PENDING_REASON = "check not built yet in this round (planned in DESIGN.md section 4); not claimed until its machinery exists"
